@@ -23,7 +23,7 @@ PROPERTY = "C12"
 LEVEL = "exploration"
 RULE = (
     "Facet history: rule-based stateful generation (Hypothesis RuleBasedStateMachine; the executed rule sequence is the "
-    "shrinkable, replayable case) over a fresh Destinations: log(burst n) with n from {1..5, 995..1005, 1500} inside or "
+    "shrinkable, replayable case) over a fresh Destinations: log(burst n) with n from {1..5, 995..1005, 1500, 2001, 2500} (several bursts add up, so the buffer wraps more than once) inside or "
     "outside an action, add(1-3 new destinations), remove(registered), add_global_fields(k=v) incl. re-setting a key; "
     "after every rule each destination's received list is compared with a reference model (bounded FIFO of 1000, "
     "registration list, global-field dict): buffered messages exactly once, in order, ahead of later ones, only to the "
@@ -39,7 +39,7 @@ ASSUMPTIONS = [
     "pausing a thread at a `line` trace event does not change what the traced code computes",
 ]
 
-BURSTS = [1, 1, 2, 3, 5, 995, 999, 1000, 1001, 1005, 1500]
+BURSTS = [1, 1, 2, 3, 5, 995, 999, 1000, 1001, 1005, 1500, 1, 2, 2001, 2500]
 
 
 class Model(object):
